@@ -1,18 +1,27 @@
 SPEC = dict(
     property='C19',
     level='other',
-    level_text='Bounded (labelled) on the real methods and module functions: for generated annotations of length 1..4/5 (all modification '
-               'kinds except intervals) and every size 1..n, None, and sizes above n for the non-repeating forms, the results are -- in '
-               'order -- the itertools enumeration of the peptide\'s (residue, own modifications) items, each wrapped in the unchanged global, '
-               'labile and terminal annotations and charge; the number of results is n!/(n-k)!, C(n,k), C(n+k-1,k), n^k; every result '
-               'parses; the argument is unchanged. Deductive support: split()/slice() contracts (C11) give the components; the text '
-               'recombination parse(start + join(components) + end) is not under contract.',
-    level_note='LC-ITERTOOLS exercised, not modelled.',
+    level_text='Mixed. DEDUCTIVE (any peptide length and size): ProFormaAnnotation.permutations / combinations / '
+               'combinations_with_replacement / product are each proved to return, in order, parse(start + join(items) + end) for the '
+               'items of the corresponding standard enumeration (itertools, LC-ITERTOOLS: a function of the list value and the size) over '
+               'the serialized one-residue pieces of the peptide reduced to its residues and residue modifications, with the peptide\'s own '
+               'serialize_start() / serialize_end() text, the size defaulting to the length; the four module-level functions are proved to '
+               'return the serialized results of the method in order. BOUNDED (labelled) on the real methods and functions: for generated '
+               'annotations of length 1..4/5 (all modification kinds except intervals) and every size 1..n, None, and sizes above n, the '
+               'results against itertools over an abstract (residue, own modifications) view, wrapping in the unchanged global / labile / '
+               'terminal annotations and charge, the counts n!/(n-k)!, C(n,k), C(n+k-1,k), n^k, parseability, argument unchanged.',
+    level_note='the enumeration itself (order and number of results of itertools), the serializer pieces, split() and parse() are pure callees: '
+               'what they return is checked by the bounded tier only (LC-ITERTOOLS, LC-JOIN).',
     design_ref='DESIGN.md section 6, C19',
-    technique='bounded run-time contract check against itertools over an abstract view (labelled stand-in)',
+    technique='weakest-precondition VCs from the real AST of the four expansion methods and the four module functions against sidecar '
+              'contracts over uninterpreted itertools / join / serializer functions, discharged by z3 / cvc5; bounded run-time contract '
+              'check against itertools over an abstract view as labelled stand-in for counts and wrapping',
+    contracts=['combo'],
     bounded=[dict(name='C19-bounded', script='bounded/C19.py')],
     replay_finder='bounded/C19.py',
-    explanation='bounded check only in this revision',
-    proved_clauses=[], bounded_clauses=['order, contents, wrapping, counts, parseability, function == method'],
-    uncovered_clauses=[], assumptions=[], trusted_base=['bounded/C19.py'],
+    explanation='the recombination structure is proved; counts / wrapping / parseability bounded',
+    proved_clauses=['each expansion is the corresponding standard enumeration over the modified residues, in order, wrapped in the peptide\'s own start and end text; default size = length',
+                    'module functions return the serialized method results in order'],
+    bounded_clauses=['counts n!/(n-k)!, C(n,k), C(n+k-1,k), n^k', 'global / labile / terminal annotations unchanged in every result', 'every result parses'],
+    uncovered_clauses=[], assumptions=['LC-ITERTOOLS', 'LC-JOIN', 'LC-DEEPCOPY'], trusted_base=['z3 5.1', 'cvc5 1.0.3', 'pyvc', 'bounded/C19.py'],
 )
